@@ -129,6 +129,33 @@ DEFS = {
                                 "fading_generators.JakesSampleGenerator/RayleighSampleGenerator"],
                        "fake": ["operation scheduler", "numpy global RNG and RandomState seeds"], "stub_or_not_run": []},
     },
+    "C13": {
+        "module": "worlds.c13", "level": "exploration",
+        "stages": {
+            "quick": [{"name": "setter histories", "n": 40000, "wall": 40, "opts": {"chunk": 250}}],
+            "thorough": [{"name": "setter histories", "n": 4000000, "wall": 600, "opts": {"chunk": 1000}}],
+        },
+        "rule": ("plan = one path-loss model (general, free space, 3GPP, METIS PS7 LOS/NLOS with 0-5 walls, Okumura-Hata) and 1-12 operations from parameter setters (valid and INVALID values: "
+                 "a rejected setter is the only fault-like event), the small-distance policy flag, and evaluations; after every step 18 distances over the model's range (six decades where "
+                 "the model allows) as array and scalar. distinct = distinct event-log digests; non-trivial = at least two operations"),
+        "assumptions": ["shadowing is never enabled (random by design, not in the statement)",
+                        "the inverse is only asserted where it is offered (general, free space, 3GPP); Okumura-Hata raises NotImplementedError and METIS returns None",
+                        "the antenna-gain clause is a pure function and is evaluated once per plan as a side assertion only"],
+        "components": {"real": ["pathloss.PathLossGeneral/PathLossFreeSpace/PathLoss3GPP1/PathLossMetisPS7/PathLossOkomuraHata", "antennagain.AntGainBS3GPP25996"],
+                       "fake": ["setter scheduler"], "stub_or_not_run": ["shadowing"]},
+    },
+    "C15": {
+        "module": "worlds.c15", "level": "exploration",
+        "stages": {
+            "quick": [{"name": "construct / setPhaseOffset histories", "n": 3000, "wall": 40, "opts": {"chunk": 20}}],
+            "thorough": [{"name": "construct / setPhaseOffset histories", "n": 200000, "wall": 600, "opts": {"chunk": 50}}],
+        },
+        "rule": ("plan = construct PSK(M, phase) for M = 2..2^10 (thorough: 2^12), QAM(M) for M = 4..4^5 (thorough: 4^6), BPSK or QPSK, then 0-6 setPhaseOffset calls; after every step every "
+                 "ordered pair of symbols at minimum distance (1e-9 relative) must carry labels differing in exactly one bit. History clause only: the code conversions are pure and not decided here. "
+                 "distinct = distinct event-log digests; non-trivial = at least one setPhaseOffset or M >= 16"),
+        "assumptions": ["adjacency = symbols at minimum Euclidean distance within 1e-9 relative", "own popcount; binary2gray/gray2binary/count_bit_errors are not under test here"],
+        "components": {"real": ["modulators.fundamental.PSK/QAM/BPSK/QPSK"], "fake": ["operation scheduler"], "stub_or_not_run": []},
+    },
 }
 
 
